@@ -383,6 +383,8 @@ def get_confirmed_edges_for_node(graph: nx.MultiDiGraph, node: DSGNode, include_
 
         # Load from cache if available
         if node in conf_edges_cache:
+            # Also make the edges available to nodes that reach this node along another path later in this traversal
+            _traversed[node] = conf_edges_cache[node].copy()
             return conf_edges_cache[node].copy()
 
     # Loop over outgoing edges
